@@ -4,7 +4,6 @@ package v2
 
 import (
 	"context"
-	"errors"
 
 	"github.com/nuts-foundation/go-did/did"
 	"github.com/nuts-foundation/nuts-node/network/dag"
@@ -25,32 +24,49 @@ func H15i() {
 	ctx := context.Background()
 	tx := &hTx{ref: hHash(1), payloadHash: hHash(1)}
 	st := &hState{txs: []*hTx{tx}}
-	npal := vLen(1, vParam("npal", 2))
-	nkids := vLen(0, vParam("nkids", 2))
+
+	// Two scenario families keep the product of concretised choices small:
+	// conns - 0..ncon connections with arbitrary attributes; one ciphertext, one own key (outcome arbitrary)
+	// keys  - everything about keys, node DID, payload store varies; one connection with arbitrary attributes
+	famConns := vChoice(2) == 1
+	var npal, nkids, ncon int
+	nodeSet := true
+	if famConns {
+		vCover("family-conns")
+		npal, nkids = 1, 1
+		ncon = vLen(0, vParam("ncon", 2))
+	} else {
+		vCover("family-keys")
+		npal = vLen(1, vParam("npal", 2))
+		nkids = vLen(0, vParam("nkids", 2))
+		nodeSet = vChoice(2) == 1
+		ncon = 1
+	}
 	for i := 0; i < npal; i++ {
 		tx.pal = append(tx.pal, []byte{byte(i), vU8()})
 	}
-	nodeSet := vChoice(2) == 1
 	nodeDID := did.DID{}
 	if nodeSet {
 		vTag("nodeDID")
 		nodeDID = hSymDID()
 	}
 	list, plaintext, wellFormed := hPlaintext(vParam("pool", 2))
-	vTag("payloadPresent")
-	payloadPresent := vBool()
-	if payloadPresent {
-		st.payloads = []hPayload{{hash: tx.payloadHash, data: []byte{vU8(), 7}}}
-	}
-	vTag("presentFails")
-	st.presentFails = vBool()
+	payloadPresent := false
 	res := &hResolver{node: nodeDID, kids: hKidNames[:nkids]}
-	vTag("resolveFails")
-	res.fails = vBool()
+	if !famConns {
+		vTag("payloadPresent")
+		payloadPresent = vBool()
+		if payloadPresent {
+			st.payloads = []hPayload{{hash: tx.payloadHash, data: []byte{vU8(), 7}}}
+		}
+		vTag("presentFails")
+		st.presentFails = vBool()
+		vTag("resolveFails")
+		res.fails = vBool()
+	}
 	m, couldDecrypt, anyMissing := hDecMatrix(npal, nkids)
 	dec := &hDecrypter{plaintext: plaintext, m: m}
 
-	ncon := vLen(0, vParam("ncon", 2))
 	cl := &hConnList{}
 	var conns []*hConn
 	for i := 0; i < ncon; i++ {
@@ -58,9 +74,7 @@ func H15i() {
 		vTag("connected")
 		c.connected = vBool()
 		vTag("sendFails")
-		if vBool() {
-			c.sendErr = errors.New("harness: outbox full")
-		}
+		c.sendFails = vBool()
 		conns = append(conns, c)
 		cl.list = append(cl.list, c)
 	}
@@ -74,10 +88,10 @@ func H15i() {
 	notForUs := nodeSet && !res.fails && !anyMissing && (!couldDecrypt || len(plaintext) == 0)
 	// the only ways to find the list 'not for us': no key opens a ciphertext, or what it opens is empty
 	mayBeNotForUs := nodeSet && !res.fails && (!couldDecrypt || len(plaintext) == 0)
-	listed := func(d did.DID) bool { return wellFormed && hListContains(list, d) }
 
 	anySent := false
 	for _, c := range conns {
+		vAssert(len(c.sent) <= 1, "H15i.at_most_one_query_per_connection: a connection was asked more than once in one attempt")
 		for _, e := range c.sent {
 			anySent = true
 			vCover("query-sent")
@@ -87,12 +101,12 @@ func H15i() {
 				vAssert(string(q.TransactionRef) == string(tx.ref.Slice()), "H15i.query_for_this_tx: the payload query is not for the transaction of the job")
 			}
 			vAssert(c.peer.Authenticated, "H15i.query_needs_authenticated_peer: payload query for a private transaction sent over an unauthenticated connection")
-			vAssert(listed(c.peer.NodeDID), "H15i.query_needs_listed_peer: payload query for a private transaction sent to a peer whose node DID is not on the decrypted participant list")
+			vAssert(wellFormed && hListContains(list, c.peer.NodeDID), "H15i.query_needs_listed_peer: payload query for a private transaction sent to a peer whose node DID is not on the decrypted participant list")
 			vAssert(ownDecrypt, "H15i.query_needs_own_decryption: payload query sent by a node that cannot decrypt the participant list with a key agreement key of its own node DID")
 			vAssert(!payloadPresent && !st.presentFails, "H15i.no_query_when_present: payload queried although it is (or may be) in the payload store")
-			if nodeSet && c.peer.NodeDID.Equals(nodeDID) {
-				// NOT asserted: the property text does not forbid it (a query carries no payload) and clustered
-				// nodes share one node DID. Recorded so that the lead can see that it happens.
+			if nodeSet && c.peer.NodeDID.ID == nodeDID.ID {
+				// NOT asserted: the property text does not forbid it (a query carries no payload; nodes of one
+				// cluster share a node DID). Recorded so that it is visible that the code does this.
 				vCover("query-to-own-did")
 			}
 		}
@@ -112,51 +126,41 @@ func H15i() {
 		vAssert(!anySent, "H15i.finished_sends_nothing: job ended although a query was sent")
 		vAssert(!st.presentFails && (payloadPresent || mayBeNotForUs), "H15i.job_ends_only_when_done: job ended although the payload is missing and the participant list was not found undecryptable")
 	}
-	if !st.presentFails && !payloadPresent && notForUs {
-		vCover("not-for-us")
-		vAssert(!anySent, "H15i.not_for_us_sends_nothing: a node that cannot decrypt the participant list sent a payload query")
-		vAssert(finished && err == nil, "H15i.not_for_us_job_ends: the job of a node that cannot decrypt the participant list did not end")
+	if !anySent {
+		vCover("nothing-sent")
 	}
-	if !st.presentFails && payloadPresent {
-		vCover("payload-present")
-		vAssert(finished && err == nil && !anySent && len(dec.kids) == 0, "H15i.present_job_ends: payload already present but the job did not simply end")
-	}
-	if !nodeSet {
-		vCover("no-node-did")
-		vAssert(!anySent, "H15i.no_node_did_sends_nothing: a node without node DID sent a payload query")
-	}
+	// (the guards below are written as assertions of implications so that the oracle itself does not fork)
+	isNotForUs := !st.presentFails && !payloadPresent && notForUs
+	vAssert(!isNotForUs || !anySent, "H15i.not_for_us_sends_nothing: a node that cannot decrypt the participant list sent a payload query")
+	vAssert(!isNotForUs || (finished && err == nil), "H15i.not_for_us_job_ends: the job of a node that cannot decrypt the participant list did not end")
+	isPresent := !st.presentFails && payloadPresent
+	vAssert(!isPresent || (finished && err == nil && !anySent && len(dec.kids) == 0), "H15i.present_job_ends: payload already present but the job did not simply end")
+	vAssert(nodeSet || !anySent, "H15i.no_node_did_sends_nothing: a node without node DID sent a payload query")
 
 	// converse (no over-blocking): a decryptable well-formed list => every listed participant with an eligible
-	// connection (connected, authenticated, that DID, Send works) is asked, over a connection of that DID.
-	if !st.presentFails && !payloadPresent && ownDecrypt && !anyMissing && wellFormed {
-		vCover("decrypted")
-		vAssert(!finished, "H15i.job_continues: payload still missing but the job ended")
-		anyEligible := false
-		for _, d := range list {
-			eligible := false
-			var first *hConn
-			for _, c := range conns {
-				if c.connected && c.peer.Authenticated && c.peer.NodeDID.Method == d.Method && c.peer.NodeDID.ID == d.ID {
-					if first == nil {
-						first = c
-					}
-				}
-			}
-			// the code asks the first matching connection; if its Send fails it does not try another one
-			if first != nil && first.sendErr == nil {
-				eligible = true
-				anyEligible = true
-				vCover("eligible-participant")
-				vAssert(len(first.sent) == 1, "H15i.eligible_participant_asked: a listed participant with an authenticated connection was not asked for the payload")
-			}
-			_ = eligible
+	// connection is asked. The code asks, per participant, the FIRST connection that is connected, authenticated and
+	// carries that DID; if its Send fails it does not try another one.
+	decrypted := !st.presentFails && !payloadPresent && ownDecrypt && !anyMissing && wellFormed
+	vAssert(!decrypted || !finished, "H15i.job_continues: payload still missing but the job ended")
+	anyAsked := false
+	for _, d := range list {
+		earlier := false
+		for _, c := range conns {
+			match := c.connected && c.peer.Authenticated && c.peer.NodeDID.Method == d.Method && c.peer.NodeDID.ID == d.ID
+			first := match && !earlier
+			earlier = earlier || match
+			asked := first && !c.sendFails
+			anyAsked = anyAsked || asked
+			vAssert(!(decrypted && asked) || len(c.sent) == 1, "H15i.eligible_participant_asked: a listed participant with an authenticated connection was not asked for the payload")
 		}
-		if anyEligible {
-			vAssert(err == nil, "H15i.asked_no_error: a query was sent but the job reported an error")
-		} else {
-			vCover("nobody-to-ask")
-			vAssert(err != nil && !anySent, "H15i.nobody_to_ask_is_error: nobody could be asked but the job did not fail (it would not be retried with back-off)")
-		}
+	}
+	vAssert(!(decrypted && anyAsked) || err == nil, "H15i.asked_no_error: a query was sent but the job reported an error")
+	vAssert(!(decrypted && !anyAsked) || (err != nil && !anySent), "H15i.nobody_to_ask_is_error: nobody could be asked but the job did not fail (it would not be retried with back-off)")
+	if anySent && err == nil && len(list) == 2 {
+		vCover("two-participants")
+	}
+	if err != nil && !anySent && !finished {
+		vCover("retry-later")
 	}
 	_ = grpc.ErrNoConnection
 	_ = transport.Peer{}
